@@ -1,6 +1,8 @@
 """C05 - every listed unit spelling maps to its canonical unit and keeps the number; compound
 currencies resolve to N + M/ratio.  The space is the set of (model, culture, unit, spelling) entries of
 the tables *as wired at run time* into each registered model's extractor configuration."""
+import re
+
 from oracles import registry
 
 ID = 'C05'
@@ -134,7 +136,10 @@ def body(ch):
         ci = ch.pick_index('chunk', (len(rows) + 39) // 40)
         ch.shard()
         kind, unit, sp = ch.pick('spelling', rows[ci * 40:(ci + 1) * 40])
-        numeral = ch.pick('numeral', CFG['numerals'])
+        # besides the fixed numerals: every digit run of the spelling itself (km2 -> 2, m3 -> 3), the case in which cutting
+        # the number out of the entity text can damage the unit
+        own = [d for d in dict.fromkeys(re.findall(r'\d+', sp)) if d not in CFG['numerals'] and d != '0']
+        numeral = ch.pick('numeral', CFG['numerals'] + own)
         if cul in DECIMAL_COMMA:
             numeral = numeral.replace('.', ',')
         car = CARRIER.get(cul, CARRIER['default']) if (cul != 'zh-cn' or is_cjk(sp)) else CARRIER['default']
